@@ -360,7 +360,14 @@ where
                 )
                 .await
                 {
-                    Ok(autd) => Some(autd),
+                    Ok(mut autd) => {
+                        // the client's geometry also carries each device's sound speed
+                        autd.geometry_mut()
+                            .iter_mut()
+                            .zip(geometry.iter())
+                            .for_each(|(dev, d)| dev.sound_speed = d.sound_speed);
+                        Some(autd)
+                    }
                     Err(e) => {
                         return Ok(Response::new(SendResponseLightweight {
                             err: true,
